@@ -5,8 +5,13 @@ def build(tier, seed):
                     decisive=r'VF:|unwinding', sample={'wrong_oracle': 'a failed sync returns from main'}))
     import C14_interlocks
     J += C14_interlocks.jobs(tier, seed)
+    # zero-size interlock: scan_file (shared with C11): the only refusal of scan_file, exactly under the documented condition, before anything is recorded
+    import C11
+    for j in C11.build(tier, seed)['jobs']:
+        if 'samepath' in j.name:
+            j.name = j.name.replace('C11/', 'C14/zero_size/'); J.append(j)
     return dict(jobs=J, bounds={'commands': 'sync fix scrub check touch pool rehash diff', 'options': 'none'},
         assumptions=['lock_lock answers "held by another process" (EWOULDBLOCK): the real flock semantics between processes are the kernel\'s and are trusted',
                      'callee recorders as in C12'],
         trusted=['cbmc 6.11.0', 'kissat', 'recorder stubs'],
-        outside=['that a second process really gets EWOULDBLOCK (kernel)', 'UUID change limit'])
+        outside=['that a second process really gets EWOULDBLOCK (kernel)', 'UUID change limit', 'all-files-missing check of state_diffscan', 'block size / hash size / unknown disk checks while loading the content file'])
